@@ -120,12 +120,19 @@ def from_chainstats(ctx, be):
     ps = [p['pat']['name'] for p in b['params'] if p.get('pat', {}).get('k') == 'Binding']
     smp, cs = S(ps[0]), S(ps[1])
     R = T.app(wvk, cs)
-    ctx.eq('C12.efc', A, 'wiring', ev.ret_term, T.app(esskey, smp, T.proj(R, 0), T.proj(R, 1)), sp=b['sp'],
+    # the helper's two results are named by position (a tuple) or by field (a private struct): whichever the ESS call takes second and
+    # third are the roles "W" and "var+" as far as this function is concerned; collect_rhat must then be sqrt(that var+ / that W)
+    comp_w, comp_v = (lambda r: T.proj(r, 0)), (lambda r: T.proj(r, 1))
+    rt = ev.ret_term
+    if T.is_app(rt, esskey) and len(rt[2]) == 3 and all(T.is_app(x) and x[1].startswith('.') and len(x[2]) == 1 and x[2][0] is R for x in rt[2][1:]) and rt[2][1][1] != rt[2][2][1]:
+        fw, fv = rt[2][1][1], rt[2][2][1]
+        comp_w, comp_v = (lambda r: T.app(fw, r)), (lambda r: T.app(fv, r))
+    ctx.eq('C12.efc', A, 'wiring', ev.ret_term, T.app(esskey, smp, comp_w(R), comp_v(R)), sp=b['sp'],
            why='ESS(sample, W, var+): the first component of the chain-statistics helper is W, the second var+ (swapped, rho_t = 1 - (var+ - acov_t)/W)')
     evc = ctx.evaluate(bc, no_inline=(wvk,), tag='efc')
     pc = [p['pat']['name'] for p in bc['params'] if p.get('pat', {}).get('k') == 'Binding']
     Rc = T.app(wvk, S(pc[0]))
-    ctx.eq('C12.efc.roles', 'stats::collect_rhat', 'roles', evc.ret_term, T.app('sqrt', T.div(T.proj(Rc, 1), T.proj(Rc, 0))), sp=bc['sp'],
+    ctx.eq('C12.efc.roles', 'stats::collect_rhat', 'roles', evc.ret_term, T.app('sqrt', T.div(comp_v(Rc), comp_w(Rc))), sp=bc['sp'],
            why='collect_rhat = sqrt(second / first) of the same helper: with C13 (collect_rhat = sqrt(var+/W)) this pins first = W, second = var+')
 
 
@@ -277,7 +284,14 @@ def bf(ctx, b):
     # all n lags: `0..n`, or one per entry of the output column (the output is zeros((n, d)) and element updates keep its shape)
     outk = [k for k in carried_keys(lo)]
     lag_counts = [n] + ([T.app('len', index_term(lo.lh[outk[0]], T.app('axis', AX(1), col)))] if len(outk) == 1 and lo.init[outk[0]] is T.app('zeros', T.tup(n, dcols)) else [])
-    okshape = lo.n is index_term(T.app('shape', T.app('zeros', T.tup(n, dcols))), N(1)) and any(li.n is x for x in lag_counts) and isinstance(lo.elem, Tup) and ev.t(lo.elem.items[0]) is col
+    def names_col(x):
+        # the output column is paired with its own input column: by index (enumerate) or by walking both in lockstep (zip)
+        try:
+            tx = ev.t(x)
+        except Exception:
+            return False
+        return tx is col or tx is T.app('index_axis', data, AX(1), col)
+    okshape = lo.n in (index_term(T.app('shape', T.app('zeros', T.tup(n, dcols))), N(1)), dcols) and any(li.n is x for x in lag_counts) and isinstance(lo.elem, Tup) and any(names_col(x) for x in lo.elem.items)
     ctx.check('C12.bf.loops', A, 'loops', okshape and len(ok_) == 1, expected='every column of an (n, d) zero array, every lag 0..n', found='cols n=%s, lags n=%s' % (show(lo.n), show(li.n)), sp=sp, why='one autocovariance series per parameter, all h lags')
     if len(ok_) != 1:
         return
